@@ -31,11 +31,17 @@ import (
 // instead of using the MSAT array, in the same way that any other stream works.
 func (r *ComDoc) readShortSAT() error {
 	count := r.SectorSize / 4
+	if int64(r.Header.SSATSectorCount) > int64(len(r.SAT)) {
+		return errors.New("ssat has fewer sectors than indicated")
+	}
 	sat := make([]SecID, count*int(r.Header.SSATSectorCount))
 	position := 0
 	for sector := r.Header.SSATNextSector; sector >= 0; sector = r.SAT[sector] {
 		if position >= len(sat) {
 			return errors.New("ssat has more sectors than indicated")
+		}
+		if int(sector) >= len(r.SAT) {
+			return errors.New("invalid ssat sector chain")
 		}
 		if err := r.readSectorStruct(sector, sat[position:position+count]); err != nil {
 			return err
